@@ -57,12 +57,16 @@ class KnotVector(Intface_KnotVector):
         return len(self.internal)
 
     def __iadd__(self, other: float) -> KnotVector:
+        if np.ndim(other) != 0:
+            return self.insert(other)
         try:
             return self.shift(other)
         except TypeError:
             return self.insert(other)
 
     def __isub__(self, other: Union[float, Tuple[float]]):
+        if np.ndim(other) != 0:
+            return self.remove(other)
         try:
             return self.shift(-other)
         except TypeError:
